@@ -516,6 +516,24 @@ def set_idx(seq, idx, val):
     return ('upd', base, tuple(entries))
 
 
+PURE_BUILTINS = {'len', 'abs', 'min', 'max', 'int', 'bool', 'str', 'bytes', 'sum', 'divmod', 'isinstance', 'hasattr',
+                 'tuple', 'sorted', 'ord', 'chr', 'float', 'round', 'pow', 'any', 'all', 'range', 'hex', 'bin', 'getattr'}
+
+
+def is_alloc(t):
+    """Is t the result of a call that may create a stateful object?"""
+    while t[0] in ('obj', 'upd'):
+        t = t[1]
+    if t[0] == 'mut':
+        return is_alloc(t[2])
+    if t[0] != 'call':
+        return False
+    f = t[1]
+    if f[0] == 'b' and f[1] in PURE_BUILTINS:
+        return False
+    return True
+
+
 def mutates(cur, init):
     """Is `cur` the object `init` after in-place updates (as opposed to a rebinding of the name)?"""
     t = cur
@@ -1335,6 +1353,12 @@ class PE:
         for v in assigned:
             if v not in env and v not in tn:
                 env2.pop(v, None)
+        # objects created before the loop and used inside it keep their identity across iterations:
+        # mark them, so that hoisting a constructor call out of a loop is not the same term as
+        # constructing a fresh object per iteration (matters for stateful objects)
+        for v in list(env2):
+            if v not in carried and v not in tn and is_alloc(env2[v]):
+                env2[v] = ('hoist', env2[v])
         if kind == 'for':
             self.bind_pattern_syms(s.target, env2, lambda path: ('it', L) + path)
             cond = None
@@ -1385,6 +1409,9 @@ class PE:
                 for v in assigned:
                     if v not in env and v not in tn:
                         env2.pop(v, None)
+                for v in list(env2):
+                    if v not in carried2 and v not in ivs and v not in tn and is_alloc(env2[v]):
+                        env2[v] = ('hoist', env2[v])
                 self.bind_pattern_syms(s.target, env2, lambda path: ('it', L) + path)
                 body_eff = []
                 self.exec_block(s.body, env2, body_eff)
@@ -1545,6 +1572,8 @@ def substitute(t, sub, opts=None):
         tag = t[0]
         if tag in ('c', 'sym', 'arg', 'g', 'b', 'p', 'phi', 'it', 'bv', 'lfn', 'undef', 'after', 'unbound', 'sent', 'exc'):
             out = t
+        elif tag == 'hoist':
+            out = ('hoist', rec(t[1]))
         elif tag in ('+', '-', '*', '//', '/', '%', '**', '<<', '>>', '&', '|', '^', '@'):
             items = [rec(x) for x in t[1]]
             acc = items[0]
